@@ -62,6 +62,7 @@ the collector gave it (otherwise it ignores it and carries on). -/
 inductive Act
   | log (m : Nat)
   | emit (src : Src) (md : List (Bytes × Bytes)) (prop : Bool)
+  | emitEcho (src : Src) (prop : Bool)   -- exchange: emit with the handler's own InputMetadata as the batch's metadata
   | finish (prop : Bool)
   | fail (code : Nat)
   | panic (code : Nat)
@@ -119,6 +120,14 @@ def runActs (input : List Int) : Coll → List Act → Coll × Option Err
     | none =>
       runActs input { c with dataIdx := some c.batches.length,
                              batches := c.batches ++ [.data (srcVals input src) md] } r
+  | c, .emitEcho src prop :: r =>
+    -- (an exchange turn replaces this act by an `emit` carrying what the handler saw before it runs:
+    -- `instTick`; a producer's echo emits no metadata)
+    match c.dataIdx with
+    | some _ => if prop then (c, some .secondEmit) else runActs input c r
+    | none =>
+      runActs input { c with dataIdx := some c.batches.length,
+                             batches := c.batches ++ [.data (srcVals input src) []] } r
   | c, .finish prop :: r =>
     if c.producer then runActs input { c with finished := true } r
     else if prop then (c, some .finishExchange) else runActs input c r
@@ -285,9 +294,25 @@ def untypedTick : Tick := [.fail 77]
 cast it (it casts whenever it knows an input schema) -/
 def inputTyped (cur : Cursor) (req : Req) : Bool := req.exact || cur.declared
 
+/-- the literal entries of a metadata list -/
+def litEntries : Meta → List (Bytes × Bytes)
+  | [] => []
+  | (k, .lit b) :: r => (k, b) :: litEntries r
+  | _ :: r => litEntries r
+
+/-- what the exchange handler saw as `InputMetadata`, as literals (it echoes these) -/
+def seenLit (req : Req) : List (Bytes × Bytes) := litEntries (stripFramework req.md)
+
+/-- an echoing emit becomes an emit carrying the metadata the handler saw -/
+def instAct (seen : List (Bytes × Bytes)) : Act → Act
+  | .emitEcho src prop => .emit src seen prop
+  | a => a
+
+def instTick (seen : List (Bytes × Bytes)) (t : Tick) : Tick := t.map (instAct seen)
+
 /-- the program the `Exchange` call of this turn runs -/
 def turnTick (cur : Cursor) (req : Req) : Tick :=
-  if inputTyped cur req then (tickAt cur.st).getD defaultExchangeTick else untypedTick
+  if inputTyped cur req then instTick (seenLit req) ((tickAt cur.st).getD defaultExchangeTick) else untypedTick
 
 def advance (cur : Cursor) (pos : Nat) : Cursor := { cur with st := { cur.st with pos := pos } }
 
